@@ -53,7 +53,10 @@ def check_result(res, predicted, source, emit, case, tp_format="vtl", rop=True):
             bucket = f"{source}/other"
         if probs:
             cid = (case.get("id") or case.get("gen") or "") if isinstance(case, dict) else ""
-            emit({"v": "viol", "b": bucket, "mech": "shape/" + probs[0][0], "what": f"[{source} {cid}] " + "; ".join(p[1] for p in probs[:3]),
+            mech = "shape/" + probs[0][0]
+            if probs[0][0] == "null-in-non-nullable" and name.startswith("DS_nvl"):
+                mech += "/nvl-with-nullable-replacement"        # results named DS_nvl* come from the nvl statements of the type-mix workload
+            emit({"v": "viol", "b": bucket, "mech": mech, "what": f"[{source} {cid}] " + "; ".join(p[1] for p in probs[:3]),
                   "case": case})
         else:
             rec = {"v": "held", "b": bucket}
